@@ -12,6 +12,7 @@ from . import scalars as S
 from . import snp
 from . import snp_funcs
 from .engine import E, HarnessError
+from . import kernel_adapter      # imported here, while `numpy` still is NumPy (load_catii swaps sys.modules)
 from .lower_pyx import compile_lowered
 from .replay import src_dir
 from .scalars import SInt, SBool, SReal, is_sym, it, mkint, mkbool, e_and, e_or, e_eq, e_lt, e_le, e_not, e_add
@@ -202,12 +203,23 @@ def load_catii(kernels="summary", modules=("iindexes", "ffuncs", "xfuncs", "ccub
         exec(code, so.__dict__)
         so.numpy = snp_funcs.NUMPY
         if kernels == "summary":
-            so.set_intersect_merge_np = summary("and")
-            so.set_union_merge_np = summary("or")
-            so.set_difference_merge_np = summary("andnot")
+            # the summaries stand for kernels called as f(left, right); another calling convention (an extra buffer
+            # argument, say) is outside what C08 discharges: refuse rather than guess its meaning
+            import inspect
+            nonstd = [kname for kname in ("set_intersect_merge_np", "set_union_merge_np", "set_difference_merge_np")
+                      if so.__dict__.get(kname) is None or len(inspect.signature(so.__dict__[kname]).parameters) != 2]
+            if nonstd:
+                # fall back to the lowered real kernels over the shim arrays (lengths decided per path)
+                kernel_adapter.install(so)
+                C.kernel_mode = "lowered kernels (signature of %s changed: summaries do not apply)" % ", ".join(nonstd)
+            else:
+                so.set_intersect_merge_np = summary("and")
+                so.set_union_merge_np = summary("or")
+                so.set_difference_merge_np = summary("andnot")
+                C.kernel_mode = "summaries"
         else:
-            from . import kernel_adapter
             kernel_adapter.install(so)
+            C.kernel_mode = "lowered kernels"
         sys.modules["catii.set_operations"] = so
         pkg.set_operations = so
         C.set_operations = so
